@@ -222,6 +222,9 @@ FLAGS = [
     ("HLCREATE_REFUSES_ZERO", "hdf/src/hblocks.c", "HLcreate", r"block_length\s*<=\s*0\s*\|\|\s*number_blocks\s*<=\s*0"),
     ("HLCONVERT_REFUSES_ZERO", "hdf/src/hblocks.c", "HLconvert", r"block_length\s*<=\s*0\s*\|\|\s*number_blocks\s*<=\s*0"),
     ("HCLOSE_CHECKS_ID_AIDS", "hdf/src/hfile.c", "Hclose", r"HAsearch_atom\(\s*AIDGROUP\s*,[^;]*&file_id\)\s*!=\s*NULL"),
+    # C13: the special information of an element (and the access elements it holds itself) is shared only between access records
+    # started through the SAME file id
+    ("SPINFO_SHARED_PER_FILE_ID", "hdf/src/hfile.c", "HPcompare_accrec_tagref", r"->file_id\s*==\s*[^&|;]*->file_id\s*&&\s*tag1\s*==\s*tag2\s*&&\s*ref1\s*==\s*ref2"),
     ("HOPEN_REOPEN_SETS_ACCESS", "hdf/src/hfile.c", "Hopen", r"file_rec->file\s*=\s*f;[^}]*file_rec->access\s*(\|=|=)[^;]*DFACC_WRITE|file_rec->access\s*(\|=|=)[^;}]*(DFACC_WRITE|acc_mode)[^}]*file_rec->file\s*=\s*f;"),
 ]
 
